@@ -73,6 +73,10 @@ func (h accountsResourceHandler) ResolveFilter(opts common.ResourceQuery[any], o
 		}
 		return fmt.Sprintf("%s %s ?", property, common.ConvertOperatorToSQL(operator)), []any{value}, nil
 	case balanceRegex.MatchString(property) || property == "balance":
+		// the map type of the field accepts $exists, which has no meaning for a balance
+		if operator == queries.OperatorExists {
+			return "", nil, common.NewErrInvalidQuery("operator '%s' is not allowed for property '%s'", operator, property)
+		}
 
 		selectBalance := h.store.newScopedSelect().
 			Where("accounts_address = dataset.address")
